@@ -480,6 +480,17 @@ func c09Gen(rng *rand.Rand, tier string) []Case {
 			out = append(out, Case{ID: fmt.Sprintf("%s%d", prefix, c), Ops: ops, Nontrivial: true, Tags: []string{tag}})
 		}
 	}
+	// replies racing the application's early Close of the query: a schedule-dependent search (see closeRace).  The cases
+	// are spread over the whole list so that they end up in different child processes (each keeps several processors busy).
+	nr, rounds := 2, 12000
+	if tier == "thorough" {
+		nr, rounds = 40, 15000
+	}
+	var races []Case
+	for c := 0; c < nr; c++ {
+		races = append(races, Case{ID: fmt.Sprintf("cr%d", c), Ops: []string{fmt.Sprintf("inj closerace %d 4 %d", rounds, 1+rng.Intn(1<<15)), "alive"},
+			Nontrivial: true, Tags: []string{"close-race"}})
+	}
 	mk("s", nStruct, g.structured, "structured")
 	mk("b", nBytes, g.byteLevel, "bytes")
 	// the name-conflict vote with arbitrary reply payloads: short cases (each vote lasts one query timeout)
@@ -503,5 +514,15 @@ func c09Gen(rng *rand.Rand, tier string) []Case {
 		}
 		out = append(out, Case{ID: fmt.Sprintf("v%d", c), Ops: []string{"inj slowquery", op, "inj msg " + hexb(g.message(0)), "alive"}, Nontrivial: true, Tags: []string{"conflict-vote"}})
 	}
-	return out
+	// interleave the race cases
+	step := 1 + len(out)/(len(races)+1)
+	var mixed []Case
+	for i, c := range out {
+		mixed = append(mixed, c)
+		if (i+1)%step == 0 && len(races) > 0 {
+			mixed = append(mixed, races[0])
+			races = races[1:]
+		}
+	}
+	return append(mixed, races...)
 }
